@@ -48,7 +48,7 @@ pub fn innocent_io_probe() -> String {
         let mut b = b;
         let _ = b.write_all(&[42]);
         let t0 = std::time::Instant::now();
-        while !done2.load(SeqCst) && t0.elapsed() < Duration::from_millis(300) {
+        while !done2.load(SeqCst) && t0.elapsed() < Duration::from_millis(1000) {
             std::thread::sleep(Duration::from_millis(1));
         }
         if let Some(c) = crate::ctrl::global() {
@@ -245,7 +245,7 @@ pub fn build(ctl: &'static Ctrl, params: &Value) -> Instance {
                         crate::run::bump("stack_not_reused");
                     }
                     let t0 = std::time::Instant::now();
-                    while DROPS.load(SeqCst) < 2 && t0.elapsed() < Duration::from_millis(300) {
+                    while DROPS.load(SeqCst) < 2 && t0.elapsed() < Duration::from_millis(2500) {
                         std::thread::yield_now();
                     }
                     let r = sh4.innocent_result.lock().unwrap().clone();
@@ -399,7 +399,7 @@ pub fn build_cls(ctl: &'static Ctrl, params: &Value) -> Instance {
                     // every coroutine that touched the key owns exactly one value, dropped exactly once after it ended
                     let n_touched_co = params_touched(&touched, ctl);
                     let t0 = std::time::Instant::now();
-                    while DROPPED_IDS.lock().unwrap().iter().filter(|i| **i >= base).count() < n_touched_co && t0.elapsed() < Duration::from_millis(300) {
+                    while DROPPED_IDS.lock().unwrap().iter().filter(|i| **i >= base).count() < n_touched_co && t0.elapsed() < Duration::from_millis(2500) {
                         std::thread::yield_now();
                     }
                     let inits = K_INITS.load(SeqCst);
